@@ -83,9 +83,16 @@ func (r *replayer) pureCase(c Case) {
 		}
 		var p1, p2 *vm.Program
 		var e1, e2 error
+		var more []*vm.Program
 		pmsg, hang := guarded(func() {
 			p1, e1 = expr.Compile(c.Src, opts...)
 			p2, e2 = expr.Compile(c.Src, opts...)
+			// further compilations: an order that depends on map iteration shows with probability 1/2 each time
+			for k := 0; k < 4 && e1 == nil && e2 == nil; k++ {
+				if p, err := expr.Compile(c.Src, opts...); err == nil {
+					more = append(more, p)
+				}
+			}
 		})
 		if pmsg != "" || hang {
 			r.sum.Stats["compile-panic (C04's subject)"]++
@@ -99,7 +106,12 @@ func (r *replayer) pureCase(c Case) {
 			r.sum.Skipped["rejected by compile"]++
 			continue
 		}
-		r.sum.Programs += 2
+		r.sum.Programs += 2 + len(more)
+		for _, p := range more {
+			if sameProgram(p1, p2) && !sameProgram(p1, p) {
+				p2 = p
+			}
+		}
 		if !sameProgram(p1, p2) {
 			r.fail(Failure{Why: "program-differs-between-compiles", Src: c.Src, Mode: m.String(),
 				Tags: []string{"first=" + toJSON(AbsProg(p1)), "second=" + toJSON(AbsProg(p2))}})
